@@ -11,11 +11,19 @@ EXTENDS MC_Server, Json
 
 CONSTANTS HistMax,     \* bound on the number of harness steps of a history
           EmitAtBound, \* TRUE: histories cut by the bound are printed too
-          Pin1, Pin2   \* programs of clients 1 and 2 (0: any program of Programs)
+          Pin1, Pin2,  \* programs of clients 1 and 2 (0: any program of Programs)
+          MaxMid       \* with AtomicPoll = FALSE: client actions INSIDE requests() calls per history
 VARIABLE hist
 gvars == <<S, mode, batch, todo, kAtStart, hist>>
 
 Step(s) == hist' = Append(hist, s)
+\* a client action inside a requests() call: it becomes part of the poll step (the last step of the
+\* history), placed before the batch element that is handled next (the harness performs it from the
+\* at_event hook at exactly that point)
+RECURSIVE CountMid(_)
+CountMid(h) == IF h = <<>> THEN 0 ELSE (IF Head(h).e = "poll" THEN Len(Head(h).mid) ELSE 0) + CountMid(Tail(h))
+Handled == hist[Len(hist)].n - Len(batch)
+Mid(op, c, bytes) == hist' = [hist EXCEPT ![Len(hist)].mid = Append(@, [at |-> Handled, op |-> op, c |-> c, bytes |-> bytes])]
 Quiescent == /\ mode = "app" /\ Ready = {} /\ S.outst = {}
              /\ \A c \in Clients : todo[c] = <<>> \/ S.cl[c].st # "open" \/ S.cl[c].wr \/ S.cl[c].srvClosed
              /\ \A c \in Clients : S.cl[c].st # "idle"
@@ -25,7 +33,7 @@ GInit == /\ Init /\ hist = <<>>
          /\ Pin2 # 0 => todo[2] = Program(2, Pin2)
 GNext ==
     /\ ~Quiescent
-    /\ \/ /\ Len(hist) < HistMax
+    /\ \/ /\ Len(hist) < HistMax /\ mode = "app"
           /\ \/ \E c \in Clients : \/ Connect(c) /\ Step([e |-> "connect", c |-> c])
                                    \/ Send(c) /\ Step([e |-> "send", c |-> c, bytes |-> Head(todo[c]),
                                                          \* the descriptors the model chose to attach to this message
@@ -37,7 +45,14 @@ GNext ==
              \/ \E t \in S.outst : AppRespond(t) /\ Step([e |-> "respond", c |-> t.owner, tag |-> t.tag])
              \/ AppFlush /\ Step([e |-> "flush"])
              \/ AppKill /\ Step([e |-> "kill"])
-             \/ PollStart /\ Step([e |-> "poll"])
+             \/ PollStart /\ Step([e |-> "poll", n |-> Len(batch'), mid |-> <<>>])
+       \* clients moving between two sub-steps of a poll (only with AtomicPoll = FALSE)
+       \/ /\ mode = "poll" /\ batch # <<>> /\ CountMid(hist) < MaxMid
+          /\ \E c \in Clients :
+                \/ Send(c) /\ Mid("send", c, Head(todo[c]))
+                \/ ShutWr(c) /\ Mid("shutwr", c, <<>>)
+                \/ ShutRd(c) /\ Mid("shutrd", c, <<>>)
+                \/ Close(c) /\ Mid("close", c, <<>>)
        \* the sub-steps of a poll are not harness steps: a poll that was started is always completed
        \/ (PollStep \/ PollEnd) /\ UNCHANGED hist
 GSpec == GInit /\ [][GNext]_gvars
